@@ -34,6 +34,9 @@ type config struct {
 	// OnlyImports: no channel rewriting at all, just the import swaps (sequential harnesses
 	// that only need the virtual clock); files without a swapped import are left alone
 	OnlyImports bool `json:"only_imports"`
+	// FileOps: no channel rewriting; insert verifmc.FileOp(site) before every statement that
+	// performs a file-system operation (package store)
+	FileOps bool `json:"fileops"`
 }
 
 func die(format string, a ...any) {
@@ -109,7 +112,7 @@ func main() {
 		die("no go files in %s", *dir)
 	}
 	info := &types.Info{Types: map[ast.Expr]types.TypeAndValue{}, Uses: map[*ast.Ident]types.Object{}, Defs: map[*ast.Ident]types.Object{}}
-	if !cfg.NoTypes && !cfg.OnlyImports {
+	if !cfg.NoTypes && !cfg.OnlyImports && !cfg.FileOps {
 		conf := types.Config{Importer: importer.ForCompiler(fset, "source", nil), Error: func(err error) {}}
 		// errors are tolerated here (the compiler is the judge of the rewritten code); we
 		// only need the types of range / len / cap operands.
@@ -128,7 +131,12 @@ func main() {
 				}
 			}
 		}
-		if cfg.OnlyImports {
+		if cfg.FileOps {
+			f.Comments = nil
+			if !rw.insertFileOps(f) {
+				continue
+			}
+		} else if cfg.OnlyImports {
 			if !rw.swapImports(f, cfg) {
 				continue
 			}
@@ -299,6 +307,86 @@ func (rw *rewriter) rewriteFile(f *ast.File, cfg config, typed bool) {
 		imp := &ast.GenDecl{Tok: token.IMPORT, Specs: []ast.Spec{&ast.ImportSpec{Name: ast.NewIdent("verifmc"), Path: &ast.BasicLit{Kind: token.STRING, Value: strconv.Quote(mcPath)}}}}
 		f.Decls = append([]ast.Decl{imp}, f.Decls...)
 	}
+}
+
+// ---- fileops mode ------------------------------------------------------------------------
+
+var fileMethods = map[string]bool{"Sync": true, "ReadString": true, "WriteTo": true, "Readdirnames": true, "ReadDir": true, "Readdir": true,
+	"Stat": true, "Write": true, "WriteString": true, "Read": true, "Truncate": true, "Chmod": true}
+
+// touchesFiles: does the statement itself (not nested blocks) contain a file-system call?
+func touchesFiles(n ast.Node) bool {
+	found := false
+	ast.Inspect(n, func(x ast.Node) bool {
+		if found {
+			return false
+		}
+		switch y := x.(type) {
+		case *ast.BlockStmt, *ast.FuncLit:
+			return x == n // nested statement lists get their own hooks
+		case *ast.CallExpr:
+			if se, ok := y.Fun.(*ast.SelectorExpr); ok {
+				if id, ok := se.X.(*ast.Ident); ok && (id.Name == "os" || id.Name == "ioutil") {
+					found = true
+				} else if id, ok := se.X.(*ast.Ident); ok && id.Name == "io" && (se.Sel.Name == "WriteString" || se.Sel.Name == "Copy" || se.Sel.Name == "ReadAll") {
+					found = true
+				} else if fileMethods[se.Sel.Name] {
+					found = true
+				}
+			}
+		}
+		return true
+	})
+	return found
+}
+
+func (rw *rewriter) insertFileOps(f *ast.File) bool {
+	changed := false
+	hook := func(n ast.Node) ast.Stmt {
+		return &ast.ExprStmt{X: call(mcSel("FileOp"), rw.site(n))}
+	}
+	var fix func(list []ast.Stmt) []ast.Stmt
+	fix = func(list []ast.Stmt) []ast.Stmt {
+		var out []ast.Stmt
+		for _, st := range list {
+			// statement headers (if/for/switch init and condition) belong to the statement
+			header := st
+			switch x := st.(type) {
+			case *ast.IfStmt:
+				header = &ast.IfStmt{Init: x.Init, Cond: x.Cond, Body: &ast.BlockStmt{}}
+			case *ast.ForStmt:
+				header = &ast.ForStmt{Init: x.Init, Cond: x.Cond, Post: x.Post, Body: &ast.BlockStmt{}}
+			case *ast.RangeStmt:
+				header = &ast.RangeStmt{Key: x.Key, Value: x.Value, X: x.X, Tok: x.Tok, Body: &ast.BlockStmt{}}
+			case *ast.SwitchStmt:
+				header = &ast.SwitchStmt{Init: x.Init, Tag: x.Tag, Body: &ast.BlockStmt{}}
+			case *ast.BlockStmt, *ast.LabeledStmt, *ast.SelectStmt, *ast.TypeSwitchStmt:
+				header = &ast.EmptyStmt{}
+			}
+			if touchesFiles(header) {
+				out = append(out, hook(st))
+				changed = true
+			}
+			out = append(out, st)
+		}
+		return out
+	}
+	ast.Inspect(f, func(n ast.Node) bool {
+		switch x := n.(type) {
+		case *ast.BlockStmt:
+			x.List = fix(x.List)
+		case *ast.CaseClause:
+			x.Body = fix(x.Body)
+		case *ast.CommClause:
+			x.Body = fix(x.Body)
+		}
+		return true
+	})
+	if changed {
+		imp := &ast.GenDecl{Tok: token.IMPORT, Specs: []ast.Spec{&ast.ImportSpec{Name: ast.NewIdent("verifmc"), Path: &ast.BasicLit{Kind: token.STRING, Value: strconv.Quote(mcPath)}}}}
+		f.Decls = append([]ast.Decl{imp}, f.Decls...)
+	}
+	return changed
 }
 
 func (rw *rewriter) swapImports(f *ast.File, cfg config) bool {
